@@ -1,3 +1,608 @@
-//! C05 bounded native checks (not written yet)
+//! C05 bounded: resampling, simplifying and gap filling on the REAL code over an enumerated input space.
+//!
+//! Curves: fixed families of 2D and 3D polylines with small integer / dyadic coordinates (straight with uneven vertex
+//! density, L-shape, stair with a dense stretch, Pythagorean zig-zags, 3-4-5 triangle naturally closed, unit square open
+//! and force-closed, dense octagon ring closed / force-closed, nearly closed "C"), each scaled by powers of two so that
+//! the total length runs from 1e-3 to about 1e3; plus single straight segments of length L for a list of L with
+//! different mantissas (1..20, 0.1..0.9, 100, 1000, ...).
+//! Requests: counts 2..=30 and 31, 50, 64, 100, 101, 120 (single segments: every count 2..=130); spacings and maximum
+//! spacings from a fixed relative and absolute set; simplification tolerances from a fixed set (incl. closed rings of
+//! extent ~0.02 with e = 1e-3 and 1e-2); gap filling on 2D / 3D point lists incl. oblique gaps.
+//! The oracle is dimension-free brute force on [f64; 3] copies of the vertices.
 use super::Report;
-pub fn run() -> Option<Report> { None }
+use crate::common::points::{evenly_spaced_points_between, fill_gaps, ramer_douglas_peucker};
+use crate::common::Resample;
+use crate::geom2::{Curve2, Point2};
+use crate::geom3::{Curve3, Point3};
+use std::panic::{catch_unwind, AssertUnwindSafe};
+
+pub type P = [f64; 3];
+pub fn sub(a: &P, b: &P) -> P { [a[0] - b[0], a[1] - b[1], a[2] - b[2]] }
+pub fn dot(a: &P, b: &P) -> f64 { a[0] * b[0] + a[1] * b[1] + a[2] * b[2] }
+pub fn d(a: &P, b: &P) -> f64 { let s = sub(a, b); dot(&s, &s).sqrt() }
+pub fn lerp(a: &P, b: &P, f: f64) -> P { [a[0] + (b[0] - a[0]) * f, a[1] + (b[1] - a[1]) * f, a[2] + (b[2] - a[2]) * f] }
+pub fn seg_dist(a: &P, b: &P, p: &P) -> f64 {
+    let ab = sub(b, a);
+    let l2 = dot(&ab, &ab);
+    if l2 == 0.0 { return d(a, p); }
+    let t = (dot(&sub(p, a), &ab) / l2).clamp(0.0, 1.0);
+    d(&lerp(a, b, t), p)
+}
+/// distance from p to the polyline (brute force over all segments)
+pub fn poly_dist(poly: &[P], p: &P) -> f64 {
+    if poly.len() == 1 { return d(&poly[0], p); }
+    let mut m = f64::INFINITY;
+    for i in 0..poly.len() - 1 { m = m.min(seg_dist(&poly[i], &poly[i + 1], p)); }
+    m
+}
+pub fn cum(poly: &[P]) -> Vec<f64> {
+    let mut c = vec![0.0];
+    for i in 0..poly.len() - 1 { let l = c[i] + d(&poly[i], &poly[i + 1]); c.push(l); }
+    c
+}
+/// the point of the polyline at arc length l (l clamped to [0, L])
+pub fn at(poly: &[P], cu: &[f64], l: f64) -> P {
+    let total = *cu.last().unwrap();
+    let l = l.clamp(0.0, total);
+    for i in 0..poly.len() - 1 {
+        if l <= cu[i + 1] {
+            let e = cu[i + 1] - cu[i];
+            if e == 0.0 { return poly[i]; }
+            return lerp(&poly[i], &poly[i + 1], (l - cu[i]) / e);
+        }
+    }
+    *poly.last().unwrap()
+}
+pub fn extent(poly: &[P]) -> f64 {
+    let mut m: f64 = 0.0;
+    for p in poly { for k in 0..3 { m = m.max(p[k].abs()); } }
+    m
+}
+pub fn p2(p: &Point2) -> P { [p.x, p.y, 0.0] }
+pub fn p3(p: &Point3) -> P { [p.x, p.y, p.z] }
+pub fn to2(p: &P) -> Point2 { Point2::new(p[0], p[1]) }
+pub fn to3(p: &P) -> Point3 { Point3::new(p[0], p[1], p[2]) }
+
+/// run the real code; a panic is a failing outcome with its message
+pub fn guarded<T, F: FnOnce() -> T>(f: F) -> Result<T, String> {
+    match catch_unwind(AssertUnwindSafe(f)) {
+        Ok(v) => Ok(v),
+        Err(e) => Err(format!("PANIC: {}", e.downcast_ref::<&str>().map(|s| s.to_string()).or_else(|| e.downcast_ref::<String>().cloned()).unwrap_or_default())),
+    }
+}
+/// silence the default panic printer while the enumerated inputs run (panics are caught and reported as clause failures)
+pub fn quiet<T, F: FnOnce() -> T>(f: F) -> T {
+    let prev = std::panic::take_hook();
+    std::panic::set_hook(Box::new(|_| {}));
+    let v = f();
+    std::panic::set_hook(prev);
+    v
+}
+
+/// Watchdog: the enumerated inputs run on a worker thread; the calling thread watches (a) the resident memory of the
+/// process and (b) the progress counter.  A change that makes one of the loops under check run away (the vertex walk of
+/// between_lengths, the position loop of resample_by_spacing, the `while` of fill_gaps) is then DECIDED as a failure of
+/// the clause "terminates", with the input that was running, instead of exhausting the machine.  Both criteria are far
+/// outside anything the unchanged code does (a few MB, microseconds per case): resident memory above 3 GB, or no new
+/// case for 120 s.
+pub mod dog {
+    use super::super::Report;
+    use std::sync::atomic::{AtomicU64, AtomicUsize, Ordering::Relaxed};
+    use std::sync::Mutex;
+    static CURVE: Mutex<String> = Mutex::new(String::new());
+    static OP: AtomicUsize = AtomicUsize::new(0);
+    static ARGS: [AtomicU64; 3] = [AtomicU64::new(0), AtomicU64::new(0), AtomicU64::new(0)];
+    static TICK: AtomicU64 = AtomicU64::new(0);
+    /// the receiver of the calls that follow
+    pub fn subject(s: &str) { if let Ok(mut g) = CURVE.lock() { g.clear(); g.push_str(s); } }
+    /// the call about to be made: `ops[op]` with up to three numeric arguments (NaN = absent)
+    pub fn call(op: usize, a: f64, b: f64, c: f64) {
+        OP.store(op, Relaxed); ARGS[0].store(a.to_bits(), Relaxed); ARGS[1].store(b.to_bits(), Relaxed); ARGS[2].store(c.to_bits(), Relaxed);
+        TICK.fetch_add(1, Relaxed);
+    }
+    fn resident_bytes() -> u64 {
+        std::fs::read_to_string("/proc/self/statm").ok().and_then(|t| t.split_whitespace().nth(1).and_then(|x| x.parse::<u64>().ok())).map(|p| p * 4096).unwrap_or(0)
+    }
+    pub fn run(bound: &'static str, ops: &'static [&'static str], f: fn() -> Report) -> Report {
+        let (tx, rx) = std::sync::mpsc::channel();
+        let worker = std::thread::Builder::new().stack_size(256 << 20).spawn(move || { let r = super::quiet(f); let _ = tx.send(r); });
+        if worker.is_err() { return super::quiet(f); }
+        let mut last = (TICK.load(Relaxed), std::time::Instant::now());
+        loop {
+            match rx.recv_timeout(std::time::Duration::from_millis(5)) {
+                Ok(r) => return r,
+                Err(std::sync::mpsc::RecvTimeoutError::Disconnected) => {
+                    let mut r = Report::new(bound);
+                    r.check(false, "the bounded harness itself runs to completion", current(ops));
+                    return r;
+                }
+                Err(std::sync::mpsc::RecvTimeoutError::Timeout) => {
+                    let t = TICK.load(Relaxed);
+                    if t != last.0 { last = (t, std::time::Instant::now()); }
+                    let mem = resident_bytes();
+                    let stalled = last.1.elapsed().as_secs() >= 120;
+                    if mem > (3u64 << 30) || stalled {
+                        let mut r = Report::new(bound);
+                        r.cases = t; r.checks = t;
+                        let why = if stalled { "no result after 120 s".to_string() } else { format!("resident memory grew to {} MB", mem >> 20) };
+                        let inp = current(ops)();
+                        r.check(false, "terminates (the call returns; no runaway loop)", move || format!("{} -> {}", inp, why));
+                        return r;
+                    }
+                }
+            }
+        }
+    }
+    fn current(ops: &'static [&'static str]) -> impl FnOnce() -> String {
+        move || {
+            let subj = CURVE.lock().map(|g| g.clone()).unwrap_or_default();
+            let args: Vec<String> = ARGS.iter().map(|a| f64::from_bits(a.load(Relaxed))).filter(|x| !x.is_nan()).map(|x| format!("{:?}", x)).collect();
+            format!("{} {}({})", subj, ops.get(OP.load(Relaxed)).unwrap_or(&"?"), args.join(", "))
+        }
+    }
+}
+
+pub enum Cv { D2(Curve2), D3(Curve3) }
+impl Cv {
+    pub fn pts(&self) -> Vec<P> { match self { Cv::D2(c) => c.points().iter().map(p2).collect(), Cv::D3(c) => c.points().iter().map(p3).collect() } }
+    pub fn length(&self) -> f64 { match self { Cv::D2(c) => c.length(), Cv::D3(c) => c.length() } }
+    pub fn tol(&self) -> f64 { match self { Cv::D2(c) => c.tol(), Cv::D3(c) => c.tol() } }
+    pub fn closed(&self) -> bool {
+        match self { Cv::D2(c) => c.is_closed(), Cv::D3(c) => { let v = c.points(); d(&p3(&v[0]), &p3(&v[v.len() - 1])) <= c.tol() } }
+    }
+    fn resample(&self, m: Resample) -> Result<Cv, String> {
+        match m { Resample::ByCount(n) => dog::call(0, n as f64, f64::NAN, f64::NAN), Resample::BySpacing(x) => dog::call(1, x, f64::NAN, f64::NAN), Resample::ByMaxSpacing(x) => dog::call(2, x, f64::NAN, f64::NAN) }
+        match self {
+            Cv::D2(c) => match guarded(|| c.resample(m)) { Ok(Ok(x)) => Ok(Cv::D2(x)), Ok(Err(e)) => Err(format!("Err({})", e)), Err(p) => Err(p) },
+            Cv::D3(c) => guarded(|| c.resample(m)).map(Cv::D3),
+        }
+    }
+    fn simplify(&self, e: f64) -> Result<Cv, String> {
+        dog::call(3, e, f64::NAN, f64::NAN);
+        match self { Cv::D2(c) => guarded(|| c.simplify(e)).map(Cv::D2), Cv::D3(c) => guarded(|| c.simplify(e)).map(Cv::D3) }
+    }
+}
+
+#[derive(Clone)]
+pub struct Shape { pub name: String, pub dim: usize, pub pts: Vec<P>, pub fc: bool, pub straight: bool, pub tol: f64, pub unit: f64 }
+impl Shape {
+    pub fn build(&self) -> Option<Cv> {
+        if self.dim == 2 {
+            let v: Vec<Point2> = self.pts.iter().map(to2).collect();
+            Curve2::from_points(&v, self.tol, self.fc).ok().map(Cv::D2)
+        } else {
+            let v: Vec<Point3> = self.pts.iter().map(to3).collect();
+            Curve3::from_points(&v, self.tol).ok().map(Cv::D3)
+        }
+    }
+    pub fn desc(&self) -> String {
+        let pts: Vec<String> = self.pts.iter().map(|p| if self.dim == 2 { format!("({:?},{:?})", p[0], p[1]) } else { format!("({:?},{:?},{:?})", p[0], p[1], p[2]) }).collect();
+        if self.dim == 2 { format!("Curve2::from_points([{}], tol={:?}, force_closed={}) [{}]", pts.join(","), self.tol, self.fc, self.name) }
+        else { format!("Curve3::from_points([{}], tol={:?}) [{}]", pts.join(","), self.tol, self.name) }
+    }
+}
+
+fn v2(l: &[(f64, f64)]) -> Vec<P> { l.iter().map(|&(x, y)| [x, y, 0.0]).collect() }
+fn v3(l: &[(f64, f64, f64)]) -> Vec<P> { l.iter().map(|&(x, y, z)| [x, y, z]).collect() }
+
+/// dense octagon ring with integer corners and (unevenly placed) extra points on its edges; closed by repeating the first point
+fn ring2() -> Vec<P> {
+    let c = [(2.0, 0.0), (4.0, 0.0), (6.0, 2.0), (6.0, 4.0), (4.0, 6.0), (2.0, 6.0), (0.0, 4.0), (0.0, 2.0)];
+    let mut v = vec![];
+    for i in 0..8 {
+        let a = [c[i].0, c[i].1, 0.0];
+        let b = [c[(i + 1) % 8].0, c[(i + 1) % 8].1, 0.0];
+        v.push(a);
+        // uneven density: one, two or three extra collinear points per edge
+        let fr: &[f64] = match i % 3 { 0 => &[0.5], 1 => &[0.25, 0.5], _ => &[0.125, 0.25, 0.75] };
+        for &f in fr { v.push(lerp(&a, &b, f)); }
+    }
+    v.push(v[0]);
+    v
+}
+
+/// the unscaled shape families: (name, dim, points, force_closed, straight)
+pub fn base_shapes() -> Vec<(&'static str, usize, Vec<P>, bool, bool)> {
+    let mut s: Vec<(&'static str, usize, Vec<P>, bool, bool)> = vec![];
+    s.push(("line-uneven", 2, v2(&[(0.0, 0.0), (0.25, 0.0), (0.5, 0.0), (1.0, 0.0), (4.0, 0.0)]), false, true));
+    s.push(("L-3-4", 2, v2(&[(0.0, 0.0), (3.0, 0.0), (3.0, 4.0)]), false, false));
+    s.push(("stair-uneven", 2, v2(&[(0.0, 0.0), (1.0, 0.0), (1.0, 1.0), (1.25, 1.0), (1.5, 1.0), (1.75, 1.0), (2.0, 1.0), (2.0, 3.0), (8.0, 3.0)]), false, false));
+    s.push(("triangle-3-4-5-closed", 2, v2(&[(0.0, 0.0), (4.0, 0.0), (4.0, 3.0), (0.0, 0.0)]), false, false));
+    s.push(("square-open", 2, v2(&[(0.0, 0.0), (1.0, 0.0), (1.0, 1.0), (0.0, 1.0)]), false, false));
+    s.push(("square-force-closed", 2, v2(&[(0.0, 0.0), (1.0, 0.0), (1.0, 1.0), (0.0, 1.0)]), true, false));
+    s.push(("zigzag-3-4-5", 2, v2(&[(0.0, 0.0), (3.0, 4.0), (6.0, 0.0), (9.0, 4.0), (12.0, 0.0)]), false, false));
+    s.push(("octagon-dense-closed", 2, ring2(), false, false));
+    let mut open_ring = ring2(); open_ring.pop();
+    s.push(("octagon-dense-force-closed", 2, open_ring, true, false));
+    s.push(("C-nearly-closed", 2, v2(&[(0.0, 0.0), (2.0, 0.0), (4.0, 0.0), (4.0, 4.0), (2.0, 4.0), (0.0, 4.0), (0.0, 2.0), (0.0, 0.015625)]), false, false));
+    s.push(("bumpy-line", 2, v2(&[(0.0, 0.0), (1.0, 0.015625), (2.0, 0.0), (3.0, -0.03125), (4.0, 0.0), (5.0, 0.125), (6.0, 0.0), (7.0, 0.0), (8.0, 1.0), (9.0, 0.0), (10.0, 0.0078125), (12.0, 0.0)]), false, false));
+    // 3D
+    s.push(("line3-uneven", 3, v3(&[(0.0, 0.0, 0.0), (0.25, 0.5, 0.5), (1.0, 2.0, 2.0), (3.0, 6.0, 6.0)]), false, true));
+    s.push(("pyth3-open", 3, v3(&[(0.0, 0.0, 0.0), (1.0, 2.0, 2.0), (3.0, 5.0, 8.0), (7.0, 9.0, 15.0)]), false, false));
+    s.push(("box-path3", 3, v3(&[(0.0, 0.0, 0.0), (1.0, 0.0, 0.0), (1.0, 1.0, 0.0), (1.0, 1.0, 0.25), (1.0, 1.0, 0.5), (1.0, 1.0, 1.0), (0.0, 1.0, 1.0)]), false, false));
+    s.push(("triangle3-3-4-5-closed", 3, v3(&[(0.0, 0.0, 0.0), (4.0, 0.0, 0.0), (4.0, 0.0, 3.0), (0.0, 0.0, 0.0)]), false, false));
+    // the octagon ring tilted out of the plane (z = x / 2): closed
+    s.push(("octagon3-dense-closed", 3, ring2().iter().map(|p| [p[0], p[1], p[0] * 0.5]).collect(), false, false));
+    s.push(("bumpy-line3", 3, v3(&[(0.0, 0.0, 0.0), (1.0, 0.015625, 0.0), (2.0, 0.0, 0.03125), (3.0, 0.0, 0.0), (4.0, 0.5, 0.5), (5.0, 0.0, 0.0), (6.0, 0.0, -0.0078125), (8.0, 0.0, 0.0)]), false, false));
+    s
+}
+
+/// every base shape at every power-of-two scale for which the total length lies in [1e-3, 1.3e3]
+pub fn scaled_shapes(exps: &[i32]) -> Vec<Shape> {
+    let mut out = vec![];
+    for (name, dim, pts, fc, straight) in base_shapes() {
+        let mut l0 = *cum(&pts).last().unwrap();
+        if fc { l0 += d(&pts[0], pts.last().unwrap()); }
+        for &k in exps {
+            let f = 2f64.powi(k);
+            if l0 * f < 1e-3 || l0 * f > 1.3e3 { continue; }
+            let p: Vec<P> = pts.iter().map(|q| [q[0] * f, q[1] * f, q[2] * f]).collect();
+            out.push(Shape { name: format!("{} x 2^{}", name, k), dim, pts: p, fc, straight, tol: 1e-7 * f, unit: f });
+        }
+    }
+    out
+}
+
+#[derive(Clone, Copy, Debug)]
+enum Mode { ByCount(usize), BySpacing(f64), ByMaxSpacing(f64) }
+impl Mode { fn get(&self) -> Resample { match *self { Mode::ByCount(n) => Resample::ByCount(n), Mode::BySpacing(s) => Resample::BySpacing(s), Mode::ByMaxSpacing(s) => Resample::ByMaxSpacing(s) } } }
+
+fn check_resample(r: &mut Report, cv: &Cv, sd: &str, straight: bool, mode: Mode) {
+    r.case();
+    dog::subject(sd);
+    let src = cv.pts();
+    let cu = cum(&src);
+    let total = *cu.last().unwrap();
+    let scale = extent(&src).max(total);
+    let eps = 1e-9 * scale;
+    let desc = || format!("{} .resample({:?})  [L = {:?}]", sd, mode, total);
+    let out = match cv.resample(mode.get()) {
+        Ok(c) => { r.check(true, "resample succeeds (no panic, no Err) on a well-posed request", desc); c }
+        Err(why) => { r.check(false, "resample succeeds (no panic, no Err) on a well-posed request", || format!("{} -> {}", desc(), why)); return; }
+    };
+    let v = out.pts();
+    let n = v.len();
+    // all vertices lie on the original
+    let worst = v.iter().map(|p| poly_dist(&src, p)).fold(0.0, f64::max);
+    r.check(worst <= eps, "every resampled vertex lies on the original (distance to the polyline <= 1e-9*scale)", || format!("{} -> worst distance {:?}", desc(), worst));
+    // the expected arc-length position of every result vertex
+    let mut want: Option<Vec<f64>> = None;
+    match mode {
+        Mode::ByCount(c) => {
+            r.check(n == c, "by count: vertex count equals the request", || format!("{} -> {} vertices", desc(), n));
+            want = Some((0..n).map(|k| total * k as f64 / (n - 1) as f64).collect());
+        }
+        Mode::ByMaxSpacing(m) => {
+            r.check(n >= 2 && total / (n - 1) as f64 <= m * (1.0 + 1e-12), "by max spacing: every spacing <= max", || format!("{} -> {} vertices, spacing {:?}", desc(), n, total / (n - 1) as f64));
+            want = Some((0..n).map(|k| total * k as f64 / (n - 1) as f64).collect());
+        }
+        Mode::BySpacing(s) => {
+            // K samples at m + k*s with equal margins m = (L - (K-1)s)/2, 0 <= m < s; a closed 2D curve gets its first
+            // sample appended once more as the closing vertex
+            let mut cands = vec![(n, false)];
+            if matches!(cv, Cv::D2(_)) && cv.closed() && n >= 3 && d(&v[0], &v[n - 1]) <= eps { cands.push((n - 1, true)); }
+            let mut margin_ok = false;
+            for (k, appended) in cands {
+                let m = (total - (k - 1) as f64 * s) / 2.0;
+                if !(m >= -eps && m < s) { continue; }
+                let mut w: Vec<f64> = (0..k).map(|i| m + i as f64 * s).collect();
+                if appended { w.push(m); }
+                let matches = (0..n).all(|i| d(&at(&src, &cu, w[i]), &v[i]) <= eps);
+                if !margin_ok || matches { want = Some(w); }
+                margin_ok = true;
+                if matches { break; }
+            }
+            r.check(margin_ok, "by spacing: centred, equal margins smaller than one spacing (vertex count consistent with 0 <= (L-(K-1)s)/2 < s)", || format!("{} -> {} vertices", desc(), n));
+        }
+    }
+    if let Some(w) = want.as_ref() {
+        if w.len() == n {
+            let mut bad = None;
+            for k in 0..n { let e = at(&src, &cu, w[k]); if d(&e, &v[k]) > eps { bad = Some((k, w[k], e, v[k])); break; } }
+            r.check(bad.is_none(), "resampled vertex k is the point of the original at the requested arc length (spacing matches the request, source order)", || format!("{} -> {:?}", desc(), bad));
+            // length: differs from the original only by the chord error of the sampling = chord sum of the on-curve samples
+            let mut chords = 0.0;
+            for k in 0..n - 1 { chords += d(&at(&src, &cu, w[k]), &at(&src, &cu, w[k + 1])); }
+            r.check((out.length() - chords).abs() <= eps, "length differs from the original only by the chord error (equals the chord sum of the on-curve sample points)", || format!("{} -> length {:?}, chord sum {:?}", desc(), out.length(), chords));
+        }
+    }
+    // spans the original from its first to its last point
+    match mode {
+        Mode::BySpacing(_) => {}
+        _ => {
+            r.check(d(&v[0], &src[0]) <= eps, "spans the original: starts at its first point", || format!("{} -> first {:?}", desc(), v[0]));
+            r.check(d(&v[n - 1], &src[src.len() - 1]) <= eps, "spans the original: ends at its last point", || format!("{} -> last {:?}", desc(), v[n - 1]));
+            if straight { r.check((out.length() - total).abs() <= eps, "straight curve: resampled length equals the original length", || format!("{} -> {:?}", desc(), out.length())); }
+        }
+    }
+    r.check(out.length() <= total + eps, "resampled length <= original length", || format!("{} -> {:?}", desc(), out.length()));
+}
+
+/// is `sub_` a subsequence of `all` (exact equality, in order)?  returns the matched indices
+fn subsequence(all: &[P], sub_: &[P]) -> Option<Vec<usize>> {
+    let mut idx = vec![];
+    let mut j = 0;
+    for p in sub_ {
+        while j < all.len() && all[j] != *p { j += 1; }
+        if j == all.len() { return None; }
+        idx.push(j);
+        j += 1;
+    }
+    Some(idx)
+}
+
+fn check_simplify(r: &mut Report, cv: &Cv, sd: &str, e: f64) {
+    r.case();
+    dog::subject(sd);
+    let src = cv.pts();
+    let scale = extent(&src).max(*cum(&src).last().unwrap());
+    let desc = || format!("{} .simplify({:?})", sd, e);
+    let out = match cv.simplify(e) {
+        Ok(c) => { r.check(true, "simplify succeeds (no panic)", desc); c }
+        Err(why) => { r.check(false, "simplify succeeds (no panic)", || format!("{} -> {}", desc(), why)); return; }
+    };
+    let v = out.pts();
+    r.check(v[0] == src[0] && v[v.len() - 1] == src[src.len() - 1], "simplify keeps both end points", || format!("{} -> first {:?} last {:?}", desc(), v[0], v[v.len() - 1]));
+    r.check(out.closed() == cv.closed(), "simplify keeps closedness", || format!("{} -> closed {} (source {})", desc(), out.closed(), cv.closed()));
+    r.check(out.tol() == cv.tol(), "simplify keeps the curve's own tolerance", || format!("{} -> tol {:?}", desc(), out.tol()));
+    let idx = subsequence(&src, &v);
+    r.check(idx.is_some(), "simplified vertices are a subsequence of the original vertices", || format!("{} -> {:?}", desc(), v));
+    discarded_within(r, &src, &v, idx.as_ref(), e, scale, &desc);
+}
+
+/// distance from p to the infinite line through a and b (to the point a when a == b): the measure RDP itself uses
+fn line_dist(a: &P, b: &P, p: &P) -> f64 {
+    let ab = sub(b, a);
+    let l2 = dot(&ab, &ab);
+    if l2 == 0.0 { return d(a, p); }
+    let t = dot(&sub(p, a), &ab) / l2;
+    d(&lerp(a, b, t), p)
+}
+
+/// "leaves every discarded vertex within e of the simplified curve": evaluated with the segment distance (the
+/// statement).  When the clause fails although every discarded vertex IS within e of the infinite line through its
+/// kept neighbours, the failure is exactly the line-versus-segment gap of classical RDP (design finding D14) and is
+/// reported under its own clause name.
+fn discarded_within(r: &mut Report, src: &[P], kept: &[P], idx: Option<&Vec<usize>>, e: f64, scale: f64, desc: &dyn Fn() -> String) {
+    let bound = e * (1.0 + 1e-9) + 1e-12 * scale;
+    let worst_seg = src.iter().map(|p| poly_dist(kept, p)).fold(0.0, f64::max);
+    let mut worst_line = 0.0f64;
+    if let Some(idx) = idx {
+        for g in 0..idx.len().saturating_sub(1) { for i in idx[g] + 1..idx[g + 1] { worst_line = worst_line.max(line_dist(&src[idx[g]], &src[idx[g + 1]], &src[i])); } }
+        r.check(worst_line <= bound, "every discarded vertex within e of the line through its kept neighbours (of the kept point, for a zero-length chord)", || format!("{} -> {:?} away; kept {:?}", desc(), worst_line, kept));
+    }
+    if idx.is_some() && worst_line <= bound && worst_seg > bound {
+        r.check(false, "[D14 line-vs-segment] every discarded vertex within e of the simplified curve: RDP measures to the infinite line through the kept neighbours, the vertex projects outside the kept segment", || format!("{} -> a discarded vertex is {:?} away from the simplified curve {:?}", desc(), worst_seg, kept));
+    } else {
+        r.check(worst_seg <= bound, "every discarded vertex within e of the simplified curve (segment distance, brute force)", || format!("{} -> a discarded vertex is {:?} away from the simplified curve {:?}", desc(), worst_seg, kept));
+    }
+}
+
+fn check_rdp_raw(r: &mut Report, pts: &[P], dim: usize, e: f64) {
+    r.case();
+    let desc = || format!("ramer_douglas_peucker::<{}>({:?}, {:?})", dim, pts, e);
+    dog::subject(&format!("{:?}", pts)); dog::call(4, e, f64::NAN, f64::NAN);
+    let res = if dim == 2 {
+        let v: Vec<Point2> = pts.iter().map(to2).collect();
+        guarded(|| ramer_douglas_peucker(&v, e)).map(|o| o.iter().map(p2).collect::<Vec<P>>())
+    } else {
+        let v: Vec<Point3> = pts.iter().map(to3).collect();
+        guarded(|| ramer_douglas_peucker(&v, e)).map(|o| o.iter().map(p3).collect::<Vec<P>>())
+    };
+    let v = match res { Ok(v) => v, Err(why) => { r.check(false, "ramer_douglas_peucker succeeds (no panic)", || format!("{} -> {}", desc(), why)); return; } };
+    r.check(v.len() >= 2 && v[0] == pts[0] && v[v.len() - 1] == pts[pts.len() - 1], "ramer_douglas_peucker keeps both end points", || format!("{} -> {:?}", desc(), v));
+    r.check(subsequence(pts, &v).is_some(), "ramer_douglas_peucker keeps a subsequence of the input", || format!("{} -> {:?}", desc(), v));
+    let scale = extent(pts);
+    let idx = subsequence(pts, &v);
+    discarded_within(r, pts, &v, idx.as_ref(), e, scale, &desc);
+}
+
+/// least n >= 0 with dist/(n+1) <= max, with a relative slack of 1e-12 on the comparison
+fn min_inserted_ok(dist: f64, max: f64, n: usize) -> bool {
+    let fits = dist / (n as f64 + 1.0) <= max * (1.0 + 1e-12);
+    let minimal = n == 0 || dist / n as f64 > max * (1.0 - 1e-12);
+    fits && minimal
+}
+
+fn check_fill(r: &mut Report, pts: &[P], dim: usize, max: f64) {
+    r.case();
+    let desc = || format!("fill_gaps::<{}>({:?}, {:?})", dim, pts, max);
+    dog::subject(&format!("{:?}", pts)); dog::call(5, max, f64::NAN, f64::NAN);
+    let res = if dim == 2 {
+        let v: Vec<Point2> = pts.iter().map(to2).collect();
+        guarded(|| fill_gaps(&v, max)).map(|o| o.iter().map(p2).collect::<Vec<P>>())
+    } else {
+        let v: Vec<Point3> = pts.iter().map(to3).collect();
+        guarded(|| fill_gaps(&v, max)).map(|o| o.iter().map(p3).collect::<Vec<P>>())
+    };
+    let out = match res { Ok(v) => v, Err(why) => { r.check(false, "fill_gaps succeeds (no panic)", || format!("{} -> {}", desc(), why)); return; } };
+    if pts.len() < 2 { r.check(out == pts, "fill_gaps of fewer than two points returns them unchanged", desc); return; }
+    let scale = extent(pts).max(max);
+    // all original points kept, in order
+    let idx = subsequence(&out, pts);
+    r.check(idx.is_some() && out[0] == pts[0] && out[out.len() - 1] == pts[pts.len() - 1], "fill_gaps keeps all original points in order (first and last included)", || format!("{} -> {:?}", desc(), out));
+    // no consecutive pair farther apart than max
+    let worst = (0..out.len() - 1).map(|i| d(&out[i], &out[i + 1])).fold(0.0, f64::max);
+    r.check(worst <= max * (1.0 + 1e-12) + 1e-12 * scale, "fill_gaps leaves no consecutive pair farther apart than max", || format!("{} -> a consecutive pair is {:?} apart: {:?}", desc(), worst, out));
+    // inserted count per gap is minimal, inserted points evenly spaced on the segment.  The original points are matched
+    // greedily from the left: with repeated points (zero gaps) the match is still the construction order.
+    if let Some(idx) = idx {
+        let mut ok_min = true; let mut ok_even = true; let mut bad = (0usize, 0usize);
+        for i in 0..pts.len() - 1 {
+            let n = idx[i + 1] - idx[i] - 1;
+            let g = d(&pts[i], &pts[i + 1]);
+            if !min_inserted_ok(g, max, n) { ok_min = false; bad = (i, n); }
+            for k in 1..=n {
+                let e = lerp(&pts[i], &pts[i + 1], k as f64 / (n + 1) as f64);
+                if d(&e, &out[idx[i] + k]) > 1e-12 * scale { ok_even = false; bad = (i, n); }
+            }
+        }
+        r.check(ok_min, "fill_gaps inserts the least n with d/(n+1) <= max into every gap", || format!("{} -> gap {} got {} points: {:?}", desc(), bad.0, bad.1, out));
+        r.check(ok_even, "fill_gaps: inserted points are evenly spaced on the segment between their neighbours", || format!("{} -> gap {}: {:?}", desc(), bad.0, out));
+    }
+}
+
+fn check_between(r: &mut Report, a: &P, b: &P, dim: usize, n: usize) {
+    r.case();
+    let desc = || format!("evenly_spaced_points_between::<{}>({:?}, {:?}, {})", dim, a, b, n);
+    dog::subject(&format!("{:?} {:?}", a, b)); dog::call(6, n as f64, f64::NAN, f64::NAN);
+    let res = if dim == 2 { guarded(|| evenly_spaced_points_between(&to2(a), &to2(b), n)).map(|o| o.iter().map(p2).collect::<Vec<P>>()) }
+              else { guarded(|| evenly_spaced_points_between(&to3(a), &to3(b), n)).map(|o| o.iter().map(p3).collect::<Vec<P>>()) };
+    let out = match res { Ok(v) => v, Err(why) => { r.check(false, "evenly_spaced_points_between succeeds (no panic)", || format!("{} -> {}", desc(), why)); return; } };
+    r.check(out.len() == n, "evenly_spaced_points_between returns exactly n points", || format!("{} -> {}", desc(), out.len()));
+    let scale = extent(&[*a, *b]).max(1e-300);
+    let mut ok = out.len() == n;
+    if ok { for k in 1..=n { if d(&lerp(a, b, k as f64 / (n + 1) as f64), &out[k - 1]) > 1e-12 * scale { ok = false; } } }
+    r.check(ok, "evenly_spaced_points_between: point k is start + (end-start)*k/(n+1)", || format!("{} -> {:?}", desc(), out));
+    // hence every consecutive distance (incl. to the end points) is d/(n+1)
+    if out.len() == n {
+        let mut chain = vec![*a]; chain.extend(out.iter().cloned()); chain.push(*b);
+        let g = d(a, b) / (n + 1) as f64;
+        let bad = (0..chain.len() - 1).any(|i| (d(&chain[i], &chain[i + 1]) - g).abs() > 1e-12 * scale);
+        r.check(!bad, "evenly_spaced_points_between: consecutive distance is d/(n+1)", || format!("{} -> {:?}", desc(), out));
+    }
+}
+
+const COUNTS: [usize; 35] = [2, 3, 4, 5, 6, 7, 8, 9, 10, 11, 12, 13, 14, 15, 16, 17, 18, 19, 20, 21, 22, 23, 24, 25, 26, 27, 28, 29, 30, 31, 50, 64, 100, 101, 120];
+const REL_SPACINGS: [f64; 10] = [0.9, 0.5, 1.0 / 3.0, 0.3, 0.25, 1.0 / 7.0, 0.11, 0.0625, 0.05, 0.013];
+const ABS_SPACINGS: [f64; 9] = [0.001, 0.01, 0.1, 0.25, 1.0, 3.0, 7.5, 10.0, 100.0];
+
+fn resample_all(r: &mut Report, cv: &Cv, sd: &str, straight: bool, counts: &[usize]) {
+    let total = cv.length();
+    let closed = cv.closed();
+    for &n in counts {
+        // two samples of a closed curve coincide: not a curve (ill-posed), start at 3
+        if closed && n < 3 { continue; }
+        check_resample(r, cv, sd, straight, Mode::ByCount(n));
+    }
+    let mut sp: Vec<f64> = REL_SPACINGS.iter().map(|f| f * total).collect();
+    for &a in ABS_SPACINGS.iter() { if a >= total / 150.0 && a < total { sp.push(a); } }
+    for &s in sp.iter() {
+        // a spacing that leaves a single sample is ill-posed; on a closed curve at least three samples are needed
+        if closed && s > total / 3.0 { continue; }
+        check_resample(r, cv, sd, straight, Mode::BySpacing(s));
+    }
+    let mut mx = sp.clone();
+    if !closed { mx.push(total); mx.push(total * 1.5); mx.push(total * 16.0); }
+    for &m in mx.iter() {
+        if closed && m > total / 3.0 { continue; }
+        check_resample(r, cv, sd, straight, Mode::ByMaxSpacing(m));
+    }
+}
+
+const OPS: [&str; 7] = [".resample ByCount", ".resample BySpacing", ".resample ByMaxSpacing", ".simplify", "ramer_douglas_peucker: tol =", "fill_gaps: max_dist =", "evenly_spaced_points_between: n ="];
+const BOUND: &str = "2D/3D curves: 17 families with small integer/dyadic vertices (open, naturally closed, force-closed, uneven vertex density) x power-of-two scales with total length in [1e-3, 1.3e3], plus straight segments of 45 lengths (1..20, 0.1..0.9, 1e-3..1e3) x every count 2..=130; resample by count (2..=31, 50, 64, 100, 101, 120), by spacing and by max spacing (10 relative + 9 absolute values); simplify with e in {0, 2^-10, 2^-7, 2^-5, 1/4, 1} x scale plus 1e-3 / 1e-2 on closed rings of extent ~0.02, and on resampled (dense) copies; fill_gaps / evenly_spaced_points_between on 2D/3D integer-grid point pairs and chains (incl. oblique gaps) x 11 maxima x 3 scales";
+pub fn run() -> Option<Report> { Some(dog::run(BOUND, &OPS, run_inner)) }
+
+fn run_inner() -> Report {
+    let mut r = Report::new(BOUND);
+
+    // ---------------------------------------------------------------- resampling
+    let shapes = scaled_shapes(&[-12, -9, -6, -3, -1, 0, 1, 3, 6, 8]);
+    for s in shapes.iter() {
+        let cv = match s.build() { Some(c) => c, None => continue };
+        resample_all(&mut r, &cv, &s.desc(), s.straight, &COUNTS);
+    }
+    // straight segments: the (length, count) pairs
+    let mut lens: Vec<f64> = (1..=20).map(|k| k as f64).collect();
+    for k in 1..=9 { lens.push(k as f64 / 10.0); }
+    lens.extend_from_slice(&[100.0, 1000.0, 0.001, 0.003, 0.009, 250.0, 999.0, 12.5, 0.15, 0.35, 33.0, 60.0, 700.0, 1e-2, 0.07, 1234.5]);
+    let all_counts: Vec<usize> = (2..=130).collect();
+    for &l in lens.iter() {
+        for dim in [2usize, 3] {
+            for three in [false, true] {
+                let pts: Vec<P> = if dim == 2 {
+                    if three { vec![[0.0, 0.0, 0.0], [l / 4.0, 0.0, 0.0], [l, 0.0, 0.0]] } else { vec![[0.0, 0.0, 0.0], [l, 0.0, 0.0]] }
+                } else if three { vec![[0.0, 0.0, 0.0], [0.0, 0.0, l / 4.0], [0.0, 0.0, l]] } else { vec![[0.0, 0.0, 0.0], [0.0, 0.0, l]] };
+                let s = Shape { name: format!("segment L={:?}", l), dim, pts, fc: false, straight: true, tol: 1e-7 * l, unit: l };
+                let cv = match s.build() { Some(c) => c, None => continue };
+                let sd = s.desc();
+                for &n in all_counts.iter() { check_resample(&mut r, &cv, &sd, true, Mode::ByCount(n)); }
+                if !three { for f in [0.5, 0.3, 0.11, 1.0 / 7.0, 0.013] { check_resample(&mut r, &cv, &sd, true, Mode::BySpacing(f * l)); check_resample(&mut r, &cv, &sd, true, Mode::ByMaxSpacing(f * l)); } }
+            }
+        }
+    }
+
+    // ---------------------------------------------------------------- simplification
+    let sshapes = scaled_shapes(&[-12, -8, -3, 0, 4, 6]);
+    for s in sshapes.iter() {
+        let cv = match s.build() { Some(c) => c, None => continue };
+        let src = cv.pts();
+        // a closed curve simplified with a tolerance as large as the curve itself collapses to a point: ill-posed
+        let reach = src.iter().map(|p| d(p, &src[0])).fold(0.0, f64::max);
+        let mut es: Vec<f64> = [0.0, 1.0 / 1024.0, 1.0 / 128.0, 1.0 / 32.0, 0.25, 1.0].iter().map(|e| e * s.unit).collect();
+        es.push(1e-3); es.push(1e-2);
+        for &e in es.iter() {
+            if cv.closed() && e >= reach / 2.0 { continue; }
+            check_simplify(&mut r, &cv, &s.desc(), e);
+            check_rdp_raw(&mut r, &src, s.dim, e);
+        }
+        // dense copies (resampled by count), then simplified: uneven density after de-duplication at corners
+        for n in [16usize, 30, 101] {
+            if let Ok(dense) = cv.resample(Resample::ByCount(n)) {
+                let sd = format!("{} .resample(ByCount({})).unwrap()", s.desc(), n);
+                let dsrc = dense.pts();
+                let reach = dsrc.iter().map(|p| d(p, &dsrc[0])).fold(0.0, f64::max);
+                for &e in es.iter() {
+                    if dense.closed() && e >= reach / 2.0 { continue; }
+                    check_simplify(&mut r, &dense, &sd, e);
+                }
+            }
+        }
+    }
+    // closed rings of extent 0.02 (not a power-of-two scale): e = 1e-3 and 1e-2
+    for dim in [2usize, 3] {
+        for fc in [false, true] {
+            if dim == 3 && fc { continue; }
+            let f = 0.02 / 6.0;
+            let mut pts: Vec<P> = ring2().iter().map(|p| if dim == 2 { [p[0] * f, p[1] * f, 0.0] } else { [p[0] * f, p[1] * f, p[0] * f * 0.5] }).collect();
+            if fc { pts.pop(); }
+            let s = Shape { name: "octagon ring of extent 0.02".to_string(), dim, pts, fc, straight: false, tol: 1e-9, unit: f };
+            if let Some(cv) = s.build() {
+                for e in [1e-3, 1e-2, 1e-4, 2e-3] { check_simplify(&mut r, &cv, &s.desc(), e); check_rdp_raw(&mut r, &cv.pts(), dim, e); }
+                resample_all(&mut r, &cv, &s.desc(), false, &[3, 4, 8, 17, 30, 64]);
+            }
+        }
+    }
+    // hairpins: the curve runs back beyond a vertex that is kept (own clause name: RDP measures to the infinite line)
+    for dim in [2usize, 3] {
+        for k in [-8, 0, 5] {
+            let f = 2f64.powi(k);
+            let pts: Vec<P> = v2(&[(0.0, 0.0), (-1.0, 0.0009765625), (3.0, 0.0)]).iter().map(|p| if dim == 2 { [p[0] * f, p[1] * f, 0.0] } else { [p[0] * f, 0.0, p[1] * f] }).collect();
+            let s = Shape { name: "hairpin".to_string(), dim, pts, fc: false, straight: false, tol: 1e-7 * f, unit: f };
+            if let Some(cv) = s.build() { check_simplify(&mut r, &cv, &s.desc(), f / 128.0); }
+        }
+    }
+
+    // ---------------------------------------------------------------- gap filling
+    let maxima = [0.25, 0.3, 0.5, 0.7, 1.0, 1.2, 1.5, 2.0, 3.0, 5.0, 100.0];
+    for k in [0i32, -10, 8] {
+        let f = 2f64.powi(k);
+        // 2D: every gap from the origin to a point of the grid {-1..3}^2, and chains
+        for x in -1..=3 { for y in -1..=3 {
+            let pts = vec![[0.0, 0.0, 0.0], [x as f64 * f, y as f64 * f, 0.0]];
+            for &m in maxima.iter() { check_fill(&mut r, &pts, 2, m * f); }
+        } }
+        for x in -1..=2 { for y in -1..=2 { for z in -1..=2 {
+            let pts = vec![[0.0, 0.0, 0.0], [x as f64 * f, y as f64 * f, z as f64 * f]];
+            for &m in maxima.iter() { check_fill(&mut r, &pts, 3, m * f); }
+        } } }
+        let chain2: Vec<P> = v2(&[(0.0, 0.0), (1.0, 1.0), (1.0, 1.0), (4.0, 5.0), (4.0, 5.5), (11.0, 5.5), (10.0, 4.0), (10.0, 4.0625), (0.0, 0.0)]).iter().map(|p| [p[0] * f, p[1] * f, 0.0]).collect();
+        let chain3: Vec<P> = v3(&[(0.0, 0.0, 0.0), (1.0, -1.0, 1.0), (3.0, 1.0, 2.0), (3.0, 1.0, 2.0), (3.0, 1.0, 9.0), (2.5, 1.0, 9.0), (0.0, 0.0, 0.0)]).iter().map(|p| [p[0] * f, p[1] * f, p[2] * f]).collect();
+        for &m in maxima.iter() {
+            check_fill(&mut r, &chain2, 2, m * f);
+            check_fill(&mut r, &chain3, 3, m * f);
+            check_fill(&mut r, &chain2[..1], 2, m * f);
+            check_fill(&mut r, &[], 3, m * f);
+        }
+        for n in 0..=6usize {
+            for (a, b) in [([0.0, 0.0, 0.0], [2.0 * f, 0.0, 0.0]), ([0.0, 0.0, 0.0], [f, f, 0.0]), ([f, -f, 0.0], [-3.0 * f, 4.0 * f, 0.0]), ([f, f, 0.0], [f, f, 0.0])] { check_between(&mut r, &a, &b, 2, n); }
+            for (a, b) in [([0.0, 0.0, 0.0], [f, -f, f]), ([f, 2.0 * f, 3.0 * f], [-f, 0.5 * f, 7.0 * f])] { check_between(&mut r, &a, &b, 3, n); }
+        }
+    }
+    // the vertex lists of the curve families as gap-filling input
+    for s in scaled_shapes(&[-9, 0, 6]).iter() {
+        for m in [0.3, 1.0, 2.5] { check_fill(&mut r, &s.pts, s.dim, m * s.unit); }
+    }
+    r
+}
